@@ -3,6 +3,8 @@
 against seeded breakage.   try_patch.py <patch.diff> [--suite] [--tier T] <Cxx>...
 Prints one line per check: CAUGHT / MISSED / BROKEN."""
 import subprocess, sys, os, re, time
+REPO = os.environ.get("VERIF_REPO", "/repo")
+VROOT = os.environ.get("VERIF_ROOT", "/verif")
 args = sys.argv[1:]
 patch = os.path.abspath(args[0]); args = args[1:]
 suite = "--suite" in args
@@ -12,20 +14,20 @@ if "--tier" in args:
 props = [a for a in args if re.fullmatch(r"C\d\d", a)]
 def sh(cmd, **kw):
     return subprocess.run(cmd, shell=True, text=True, capture_output=True, **kw)
-if sh("git -C /repo diff --quiet").returncode != 0:
+if sh(f"git -C {REPO} diff --quiet").returncode != 0:
     print("repo dirty"); sys.exit(2)
-r = sh(f"git -C /repo apply {patch}")
+r = sh(f"git -C {REPO} apply {patch}")
 if r.returncode != 0:
     print("patch does not apply:", r.stderr); sys.exit(2)
 try:
     if suite:
-        t = sh("cd /repo && cargo test --workspace --no-fail-fast --offline 2>&1 | grep -E '^test result|error(\\[|:)' ")
+        t = sh(f"cd {REPO} && cargo test --workspace --no-fail-fast --offline 2>&1 | grep -E '^test result|error(\\[|:)' ")
         failed = sum(int(m) for m in re.findall(r"(\d+) failed", t.stdout))
         passed = sum(int(m) for m in re.findall(r"(\d+) passed", t.stdout))
         print(f"suite: passed={passed} failed={failed}" + (" (COMPILE ERROR?)" if passed == 0 else ""))
     for p in props:
         t0 = time.time()
-        r = sh(f"cd /verif && VERIF_TIER={tier} python3 check.py {p} --tier {tier}")
+        r = sh(f"cd {VROOT} && VERIF_TIER={tier} python3 check.py {p} --tier {tier}")
         v = [l for l in r.stdout.splitlines() if l.startswith("VIOLATION")]
         d = [l for l in r.stdout.splitlines() if l.startswith("VIOL-DETAIL")]
         status = "CAUGHT" if (r.returncode == 1 and v) else ("MISSED" if r.returncode == 0 else f"BROKEN(rc={r.returncode})")
@@ -33,5 +35,5 @@ try:
         if status.startswith("BROKEN"):
             print(r.stdout[-1500:]); print(r.stderr[-500:])
 finally:
-    sh("git -C /repo checkout -- . && git -C /repo clean -fdq src tests")
-    print("reverted:", sh("git -C /repo status --short").stdout.strip() or "clean")
+    sh(f"git -C {REPO} checkout -- . && git -C {REPO} clean -fdq src tests")
+    print("reverted:", sh(f"git -C {REPO} status --short").stdout.strip() or "clean")
